@@ -370,7 +370,7 @@ def decoder_regions():
         from vf.props import c06, c07, decode_common as dc
         from vf.sym import sym
         _REGIONS['arm'] = [(w, tr) for w, tr, _ in sym.enumerate_paths(lambda w: dc.outcome_of(c06.decoder, w), 32)]
-        _REGIONS['t32'] = [(w, tr) for w, tr, _ in sym.enumerate_paths(lambda w: dc.outcome_of(c07.dec32, w), 32, fixed=list(c07.TOP3))]
+        _REGIONS['t32'] = [(w, list(tr) + list(c07.TOP3)) for w, tr, _ in sym.enumerate_paths(lambda w: dc.outcome_of(c07.dec32, w), 32, fixed=list(c07.TOP3))]      # (members must stay 32-bit Thumb words)
     return _REGIONS
 
 
@@ -392,13 +392,19 @@ def shard_witness(plan_ref, part, nparts, seed, per_region):
             idx += 1
             if idx % nparts != part:
                 continue
-            for w in [w0] + dc.members(w0, trace, 32, rng, per_region):
+            words, seen_w = [w0], {w0}
+            for _try in range(3):
+                for m in dc.members(w0, trace, 32, rng, per_region):
+                    if m not in seen_w and len(words) <= per_region:
+                        seen_w.add(m)
+                        words.append(m)
+            for w in words:
                 row, _f = table_decode(table, w)
                 if row is None or row.name not in rows:
                     continue
                 thumb = tn != 'arm'
                 code = e1.enc_arm(w) if not thumb else e1.enc_thumb(w, True) + b'\x00\xbf\x00\xbf'
-                for _ in range(2):
+                for _ in range(3):
                     kw = plan.case_kw(rng, row)
                     if thumb and 'pc_off' not in kw:
                         kw['pc_off'] = rng.choice((0, 2))
@@ -413,7 +419,7 @@ def shard_witness(plan_ref, part, nparts, seed, per_region):
 
 
 def witness_tasks(ctx, plan_ref, base=950, nparts=8):
-    return [(shard_witness, (plan_ref, i, nparts, ctx.shard_seed(base + i), ctx.n(6, 60))) for i in range(nparts)]
+    return [(shard_witness, (plan_ref, i, nparts, ctx.shard_seed(base + i), ctx.n(10, 60))) for i in range(nparts)]
 
 
 def replay_multi(case):
